@@ -274,7 +274,7 @@ func wrapped(data []byte, want result, label string) {
 	}
 }
 
-func fragmentations(data []byte, label string, pairs, triples bool) {
+func fragmentations(data []byte, label string, pairs, triples, quads bool) {
 	want := readMem(data)
 	ctx.Add("files", 1)
 	zeroReads(data, want, label)
@@ -305,6 +305,12 @@ func fragmentations(data []byte, label string, pairs, triples bool) {
 				}
 				for c := b + 1; c < len(data); c++ {
 					one(data, want, []int{a, b, c}, 0, eof, label)
+					if !quads {
+						continue
+					}
+					for d := c + 1; d < len(data); d++ {
+						one(data, want, []int{a, b, c, d}, 0, eof, label)
+					}
 				}
 			}
 		}
@@ -487,18 +493,19 @@ func main() {
 			}
 		}
 	}
-	pairLimit := ctx.Pick(120, 400)
-	tripleLimit := ctx.Pick(36, 60)
+	pairLimit := ctx.Pick(120, 1200)
+	tripleLimit := ctx.Pick(36, 100)
+	quadLimit := ctx.Pick(30, 44)
 	ctx.Jobs("frag", len(inputs), func(j int) {
 		d := inputs[j].data
-		fragmentations(d, inputs[j].label, len(d) <= pairLimit, len(d) <= tripleLimit)
+		fragmentations(d, inputs[j].label, len(d) <= pairLimit, len(d) <= tripleLimit, len(d) <= quadLimit)
 	})
 	ctx.Set("valid_files", len(files))
 	ctx.Set("truncated_inputs", len(inputs)-len(files))
 	ctx.Sample(map[string]interface{}{"file": names[3], "fragmentation": "cuts at offsets {5, 17}, final fragment with io.EOF"})
 	ctx.Sample(map[string]interface{}{"file": names[0], "fragmentation": "one byte per Read call"})
 	ctx.Guard(ctx.NontrivialCount() > 1000, "too few fragmentations that split a multi-byte read: %d", ctx.NontrivialCount())
-	ctx.Finish("for every input (valid family files and every truncation of the ten smallest): all single cuts, all pairs of cuts (files <= 64 bytes; thorough: all files, triples <= 40 bytes), 1/2/3 bytes per call, each with and without data+EOF; non-trivial = fragmentations in which at least one Read returned fewer bytes than the library asked for")
+	ctx.Finish("for every input (valid family files and every truncation of the ten smallest): all single cuts, all pairs of cuts (inputs <= 120 bytes; thorough <= 1200), triples (<= 36; thorough <= 100), quadruples (<= 30; thorough <= 44), 1/2/3 bytes per call, each with and without data+EOF; non-trivial = fragmentations in which at least one Read returned fewer bytes than the library asked for")
 }
 
 func replay() {
